@@ -1175,7 +1175,7 @@ pub fn gen_growth(r: &mut Rng) -> Vec<u8> {
     // recursion, long-lived memoised sizes).
     let n = if r.chance(1, 25) { 1000 + r.usize_below(5000) } else { 10 + r.usize_below(cap) };
     // (the plain doubling step with one fixed opcode three times in ten)
-    let unit = if r.chance(3, 10) { 0 } else { r.below(13) };
+    let unit = if r.chance(3, 10) { 0 } else if r.chance(1, 7) { 9 } else { r.below(13) };
     // Every two-operand opcode gets its turn as the doubling step: each has
     // its own arm in the value tree's size bookkeeping.
     const BINARY: [u8; 21] = [
@@ -1184,11 +1184,19 @@ pub fn gen_growth(r: &mut Rng) -> Vec<u8> {
     ];
     let bin_op = *r.pick(&BINARY);
     let tern_op = if r.chance(1, 2) { op::ADDMOD } else { op::MULMOD };
+    let un_op = *r.pick(&[op::SLOAD, op::SLOAD, op::SLOAD, op::MLOAD, op::CALLDATALOAD, op::BALANCE, op::EXTCODEHASH, op::EXTCODESIZE, op::BLOCKHASH, op::ISZERO, op::NOT]);
+    let un_fixed = r.chance(2, 3);
     for i in 0..n {
         match if r.chance(1, 10) { r.below(13) } else { unit } {
             9 => {
-                // a unary operation applied to its own result
-                a.op(*r.pick(&[op::SLOAD, op::SLOAD, op::MLOAD, op::CALLDATALOAD, op::BALANCE, op::EXTCODEHASH, op::EXTCODESIZE, op::BLOCKHASH, op::ISZERO, op::NOT]));
+                // a unary operation applied to its own result: the same one
+                // all the way down (two programs in three), or a mix
+                const UNARY: [u8; 10] = [op::SLOAD, op::SLOAD, op::MLOAD, op::CALLDATALOAD, op::BALANCE, op::EXTCODEHASH, op::EXTCODESIZE, op::BLOCKHASH, op::ISZERO, op::NOT];
+                if un_fixed {
+                    a.op(un_op);
+                } else {
+                    a.op(*r.pick(&UNARY));
+                }
             }
             10 => {
                 // CREATE2 with the previous result as its salt
@@ -1240,7 +1248,36 @@ pub fn gen_growth(r: &mut Rng) -> Vec<u8> {
         }
     }
     // Use the result somewhere it matters.
-    match r.below(5) {
+    match r.below(10) {
+        5 => {
+            // as the offset of a load
+            a.op(op::MLOAD).push_u(r.below(4) as u128).op(op::SSTORE);
+        }
+        6 => {
+            // as a copy size or offset
+            if r.chance(1, 2) {
+                a.op(op::PUSH0).op(op::PUSH0).op(op::CALLDATACOPY);
+            } else {
+                a.push_u(0x40).swap(1).op(op::PUSH0).op(op::CALLDATACOPY);
+            }
+        }
+        7 => {
+            // masked (on either side) and stored
+            if r.chance(1, 2) {
+                a.push(mask(160)).op(op::AND);
+            } else {
+                a.push(mask(160)).swap(1).op(op::AND);
+            }
+            a.push_u(r.below(4) as u128).op(op::SSTORE);
+        }
+        8 => {
+            // scaled and stored
+            a.push_u(0x100).op(op::MUL).push_u(r.below(4) as u128).op(op::SSTORE);
+        }
+        9 => {
+            // as a jump target
+            a.op(op::JUMP);
+        }
         0 => {
             a.push_u(r.below(4) as u128).op(op::SSTORE);
         }
@@ -1320,7 +1357,23 @@ pub fn gen_const_use(r: &mut Rng) -> Vec<u8> {
         if r.chance(1, 4) {
             a.op(op::NOT);
         }
-        match r.below(12) {
+        match r.below(14) {
+            12 => {
+                // size of the return-data region of a call (the copy loop
+                // that the whole CALL family shares)
+                a.op(op::PUSH0); // retOffset
+                a.op(op::PUSH0).op(op::PUSH0); // argsSize, argsOffset
+                let callop = *r.pick(&[op::CALL, op::CALLCODE, op::DELEGATECALL, op::STATICCALL]);
+                if callop == op::CALL || callop == op::CALLCODE {
+                    a.op(op::PUSH0); // value
+                }
+                a.op(op::CALLER).op(op::GAS).op(callop).op(op::POP);
+            }
+            13 => {
+                // offset of the return-data region, one word
+                a.push_u(0x20).swap(1);
+                a.op(op::PUSH0).op(op::PUSH0).op(op::CALLER).op(op::GAS).op(op::STATICCALL).op(op::POP);
+            }
             0 => {
                 // memory offset of a store
                 a.op(op::CALLER).swap(1).op(op::MSTORE);
@@ -1567,7 +1620,7 @@ pub fn gen_knobs(r: &mut Rng) -> Knobs {
         max_iterations:   r.range(1, 12) as usize,
         max_forks:        r.range(1, 60) as usize,
         value_size_limit: *r.pick(&[1usize, 2, 3, 5, 10, 50, 250, 1000]),
-        mem_op_limit:     *r.pick(&[1usize, 31, 32, 33, 394, 4096]),
+        mem_op_limit:     *r.pick(&[1usize, 31, 32, 33, 394, 4096, 65_536]),
         permissive:       r.chance(1, 2),
     }
 }
